@@ -243,7 +243,7 @@ def _model_dict(m: z3.ModelRef):
     return d
 
 
-def solve_formula(world, hyps, goal, timeout_s=30.0, want_model=True, use_cvc5=True):
+def solve_formula(world, hyps, goal, timeout_s=30.0, want_model=True, use_cvc5=True, _ematched=False):
     """Returns (verdict, solver, seconds, model_dict|None, reason).
 
     Portfolio, sequentially inside one worker (the pool provides the parallelism):
@@ -253,11 +253,11 @@ def solve_formula(world, hyps, goal, timeout_s=30.0, want_model=True, use_cvc5=T
     """
     t0 = time.time()
     base = list(hyps) + [z3.Not(goal)]
-    if has_quantifier(hyps):
+    if has_quantifier(hyps) and not _ematched:     # (a hypothesis with a nested/negated quantifier survives ematch: do not recurse again)
         # first try with the quantified hypotheses replaced by their pattern instances (quantifier-free for the
         # solver); only an `unsat` is taken from this weakened query
         weak = ematch(base)
-        v, solver, secs, _, reason0 = solve_formula(world, weak[:-1], z3.Not(weak[-1]), timeout_s, False, use_cvc5)
+        v, solver, secs, _, reason0 = solve_formula(world, weak[:-1], z3.Not(weak[-1]), timeout_s, False, use_cvc5, True)
         if v == "unsat":
             return "unsat", solver + "+ematch", time.time() - t0, None, ""
     ax = instantiate_axioms(world, base)
